@@ -151,8 +151,6 @@ def f_unsafe(ctx, prog):
         if not u['user']:
             continue
         owner = u['owner']
-        if not owner.startswith(('minicbor::', '<minicbor::', 'minicbor_serde::', '<minicbor_serde::', 'minicbor_io::', '<minicbor_io::')) and 'minicbor' not in owner:
-            continue
         seen.add(owner)
         if owner in allowed:
             ctx.ok('F-UNSAFE', owner)
@@ -258,7 +256,9 @@ def f_unsafe(ctx, prog):
                 ctx.ok('F-UNSAFE.arrayvec', '[T; N]::decode: every exit drops or consumes the ArrayVec')
 
 
-ALLOC_SINKS = ('with_capacity', 'reserve', 'reserve_exact', 'resize', 'resize_with', 'from_elem', 'repeat', 'try_reserve', 'try_with_capacity')
+# allocation request functions of std -> index of the operand that carries the requested size
+ALLOC_SINKS = {'with_capacity': 0, 'try_with_capacity': 0, 'with_capacity_in': 0, 'reserve': 1, 'reserve_exact': 1, 'try_reserve': 1, 'try_reserve_exact': 1,
+               'resize': 1, 'resize_with': 1, 'from_elem': 1, 'repeat': 1}
 
 
 def f_alloc(ctx, prog, reach):
@@ -271,8 +271,9 @@ def f_alloc(ctx, prog, reach):
             if last in ALLOC_SINKS and (p.startswith(('std::', 'alloc::', 'core::'))):
                 n += 1
                 # constant-size requests are fine
-                szs = [a for a in t['args'] if 'const' in a and 'v' in a['const']]
-                if len(szs) == len([a for a in t['args'] if not ('copy' in a or 'move' in a)]) and not any(('copy' in a or 'move' in a) for a in t['args'][1:]):
+                si = ALLOC_SINKS[last]
+                size_op = t['args'][si] if si < len(t['args']) else None
+                if size_op is not None and 'const' in size_op and 'v' in size_op['const']:
                     ctx.ok('F-ALLOC', '%s|%s|const' % (inst['path'], p), nontrivial=False)
                     continue
                 ctx.violation('F-ALLOC', '%s|%s' % (inst['path'], p), 'allocation sized by a runtime value in a decoding path (a declared length could force a huge allocation)', mir.loc(t.get('sp')))
@@ -480,7 +481,7 @@ def run(ctx):
     # positive controls
     try:
         from . import controls
-        controls.run(ctx, ('F-ALLOC', 'F-PANIC', 'F-UNSAFE'))
+        controls.run(ctx, ('F-ALLOC', 'F-PANIC', 'F-UNSAFE', 'F-LOOP'))
     except ImportError:
         ctx.notes.append('fixtures not built')
     return ('Census over %d decode-reachable functions (%d entry points): panic sites, unsafe blocks, allocation sinks, input-field accesses, loops.' % (len(reach), len(roots)))
